@@ -84,6 +84,14 @@ pub struct WalConfig {
 
 impl Default for WalConfig {
     fn default() -> Self {
+        #[cfg(grafeo_verif)]
+        if let Some(max_log_size) = super::verif::max_log_size() {
+            return Self {
+                durability: DurabilityMode::default(),
+                max_log_size,
+                compression: false,
+            };
+        }
         Self {
             durability: DurabilityMode::default(),
             max_log_size: 64 * 1024 * 1024, // 64 MB
